@@ -582,7 +582,7 @@ Abort(e) ==
 (* A frame the honest protocol does not expect here (only a relay makes one):
    the end swallows it into its transcript and keeps waiting, or aborts.     *)
 SkipOdd(e) ==
-  /\ ~Terminal(e) /\ Waiting(e) /\ HasIn(e) /\ HeadIn(e).v \in {"ins", "splitA"} /\ ~HeadIn(e).prot
+  /\ ~Terminal(e) /\ Waiting(e) /\ ~frozen[e] /\ HasIn(e) /\ HeadIn(e).v \in {"ins", "splitA"} /\ ~HeadIn(e).prot
   /\ chan' = PopIn(e)
   /\ recvClear' = RecvClearT(e, HeadIn(e))
   /\ UNCHANGED <<cfg, shape, pc, nsent, dec, cview, offer, sel, mstep, ran, key, sentClear, frozen,
@@ -620,7 +620,7 @@ Merge(d, p) ==
                                    \o SubSeq(@, p + 2, Len(@))]
   /\ RelayDone
 
-Relay == \E d \in Dir, p \in 1..3 :
+Relay == relayLeft > 0 /\ \E d \in Dir, p \in 1..3 :
            \/ \E part \in {"hdr", "pay"} : Modify(d, p, part)
            \/ InsertFrame(d, p) \/ RemoveFrame(d, p) \/ Split(d, p) \/ Merge(d, p)
 
